@@ -695,13 +695,32 @@ def check_sweeps(ctx, f):
             ctx.missing("R-STEP", short_fn, name)
             continue
         ctx.saw_fn(name)
+        outside = None
         try:
             sw = sweep.Sweep(f, b, op)
             problems = sw.run()
             rounds, states = sw.rounds, sw.states
+            hard = [p for p in problems if not p.get("unsupported")]
+            if problems and not hard:
+                outside = problems[0]["problem"]
+            elif hard and len(hard) < len(problems) and all(p.get("where") == "prologue" for p in hard):
+                # the prologue is judged with the same reading of the state: if the rounds cannot be read, neither can it
+                outside = [p for p in problems if p.get("unsupported")][0]["problem"]
+            problems = hard if outside is None else []
         except sweep.Unsupported as e:
-            problems, rounds, states = [{"problem": "cannot establish: %s" % e}], 0, 0
+            problems, rounds, states = [], 0, 0
+            outside = str(e)
         ctx.analysed["paths"] += rounds
+        if outside is not None:
+            # The function keeps its sweep state in a form the order-domain interpreter has no reading for (an index into
+            # a slice instead of a shrinking slice, a cursor split into scalars, a helper writing through `&mut` …).  That
+            # is neither a finding nor an established obligation: the structural rules (b), (c), (g), (h) above still
+            # apply to the function; this deeper rule gives no verdict.
+            ctx.note("R-STEP gives no verdict on %s: %s" % (short_fn, outside[:200]))
+            ctx.ob("R-STEP", "%s:rounds" % short_fn, True,
+                   "%s: sweep state outside the interpreter's vocabulary (%s) — no verdict from this rule" % (short_fn, outside[:120]),
+                   where=b.loc, nontrivial=False)
+            continue
         ctx.ob("R-STEP", "%s:rounds" % short_fn, not problems,
                "%s computes the %s of two ascending block sequences: %d abstract states, %d interpreted rounds, each admissible"
                % (short_fn, {"member": "membership test", "subset": "subset test"}.get(op, op), states, rounds),
